@@ -33,15 +33,11 @@ func verifAttrPolicies(aps []attrPolicy, name VerifRegexName) string {
 }
 
 func verifAttrRules(m map[string][]attrPolicy, name VerifRegexName) string {
-	keys := make([]string, 0, len(m))
-	for k := range m {
-		keys = append(keys, k)
+	parts := make([]string, 0, len(m))
+	for k, v := range m {
+		parts = append(parts, fmt.Sprintf("%x=[%s]", k, verifAttrPolicies(v, name)))
 	}
-	sort.Strings(keys)
-	parts := make([]string, len(keys))
-	for i, k := range keys {
-		parts[i] = fmt.Sprintf("%x=[%s]", k, verifAttrPolicies(m[k], name))
-	}
+	sort.Strings(parts)
 	return "{" + strings.Join(parts, ";") + "}"
 }
 
@@ -67,15 +63,11 @@ func verifStylePolicies(sps []stylePolicy, name VerifRegexName) string {
 }
 
 func verifStyleRules(m map[string][]stylePolicy, name VerifRegexName) string {
-	keys := make([]string, 0, len(m))
-	for k := range m {
-		keys = append(keys, k)
+	parts := make([]string, 0, len(m))
+	for k, v := range m {
+		parts = append(parts, fmt.Sprintf("%x=[%s]", k, verifStylePolicies(v, name)))
 	}
-	sort.Strings(keys)
-	parts := make([]string, len(keys))
-	for i, k := range keys {
-		parts[i] = fmt.Sprintf("%x=[%s]", k, verifStylePolicies(m[k], name))
-	}
+	sort.Strings(parts)
 	return "{" + strings.Join(parts, ";") + "}"
 }
 
@@ -120,15 +112,12 @@ func (p *Policy) VerifDump(name VerifRegexName) string {
 	}
 	// elements
 	{
-		keys := make([]string, 0, len(p.elsAndAttrs))
-		for k := range p.elsAndAttrs {
-			keys = append(keys, k)
+		parts := make([]string, 0, len(p.elsAndAttrs))
+		for k, v := range p.elsAndAttrs {
+			parts = append(parts, fmt.Sprintf("%x:%s ", k, verifAttrRules(v, name)))
 		}
-		sort.Strings(keys)
-		b.WriteString(" els=")
-		for _, k := range keys {
-			fmt.Fprintf(&b, "%x:%s ", k, verifAttrRules(p.elsAndAttrs[k], name))
-		}
+		sort.Strings(parts)
+		b.WriteString(" els=" + strings.Join(parts, ""))
 	}
 	{
 		parts := make([]string, 0, len(p.elsMatchingAndAttrs))
@@ -140,15 +129,12 @@ func (p *Policy) VerifDump(name VerifRegexName) string {
 	}
 	b.WriteString(" gattrs=" + verifAttrRules(p.globalAttrs, name))
 	{
-		keys := make([]string, 0, len(p.elsAndStyles))
-		for k := range p.elsAndStyles {
-			keys = append(keys, k)
+		parts := make([]string, 0, len(p.elsAndStyles))
+		for k, v := range p.elsAndStyles {
+			parts = append(parts, fmt.Sprintf("%x:%s ", k, verifStyleRules(v, name)))
 		}
-		sort.Strings(keys)
-		b.WriteString(" styles=")
-		for _, k := range keys {
-			fmt.Fprintf(&b, "%x:%s ", k, verifStyleRules(p.elsAndStyles[k], name))
-		}
+		sort.Strings(parts)
+		b.WriteString(" styles=" + strings.Join(parts, ""))
 	}
 	{
 		parts := make([]string, 0, len(p.elsMatchingAndStyles))
@@ -160,15 +146,12 @@ func (p *Policy) VerifDump(name VerifRegexName) string {
 	}
 	b.WriteString(" gstyles=" + verifStyleRules(p.globalStyles, name))
 	{
-		keys := make([]string, 0, len(p.allowURLSchemes))
-		for k := range p.allowURLSchemes {
-			keys = append(keys, k)
+		parts := make([]string, 0, len(p.allowURLSchemes))
+		for k, v := range p.allowURLSchemes {
+			parts = append(parts, fmt.Sprintf("%x:%d,", k, len(v)))
 		}
-		sort.Strings(keys)
-		b.WriteString(" schemes=")
-		for _, k := range keys {
-			fmt.Fprintf(&b, "%x:%d,", k, len(p.allowURLSchemes[k]))
-		}
+		sort.Strings(parts)
+		b.WriteString(" schemes=" + strings.Join(parts, ""))
 	}
 	{
 		parts := make([]string, len(p.allowURLSchemeRegexps))
